@@ -6,13 +6,15 @@ Scheme word_mind := Induction for word Sort Prop
   with part_mind := Induction for part Sort Prop
   with dq_mind := Induction for dq Sort Prop
   with words_mind := Induction for words Sort Prop
+  with assigns_mind := Induction for assigns Sort Prop
+  with redirs_mind := Induction for redirs Sort Prop
+  with citems_mind := Induction for citems Sort Prop
   with stmts_mind := Induction for stmts Sort Prop
   with stmt_mind := Induction for stmt Sort Prop.
-Combined Scheme fragment_mutind from word_mind, part_mind, dq_mind, words_mind, stmts_mind, stmt_mind.
+Combined Scheme fragment_mutind from word_mind, part_mind, dq_mind, words_mind, assigns_mind, redirs_mind,
+  citems_mind, stmts_mind, stmt_mind.
 
-Lemma norm_stmts_nil : forall l, match norm_stmts l with SNil => l = SNil | SCons _ _ _ _ _ => l <> SNil end.
-Proof. destruct l; cbn; [reflexivity|discriminate]. Qed.
-
+(* ---- strings ---- *)
 Lemma unquote_dq_strip_len : forall n s, (length s <= n)%nat -> unquote_dq (strip_escnl_dq s) = unquote_dq s.
 Proof.
   induction n as [|n IH]; intros s Hl.
@@ -34,18 +36,121 @@ Qed.
 Lemma unquote_dq_strip : forall s, unquote_dq (strip_escnl_dq s) = unquote_dq s.
 Proof. intros s. apply (unquote_dq_strip_len (length s)). apply le_n. Qed.
 
+Lemma strip_escnl_idem_len : forall n s, (length s <= n)%nat -> strip_escnl_dq (strip_escnl_dq s) = strip_escnl_dq s.
+Proof.
+  induction n as [|n IH]; intros s Hl.
+  - destruct s; [reflexivity|cbn in Hl; lia].
+  - destruct s as [|b t]; [reflexivity|]. cbn [strip_escnl_dq].
+    destruct (b =? BSL) eqn:Hb.
+    + destruct t as [|c t']; [cbn; rewrite Hb; reflexivity|].
+      destruct (c =? NL) eqn:Hc.
+      * apply IH. cbn in Hl. lia.
+      * cbn [strip_escnl_dq]. rewrite Hb, Hc. do 2 f_equal. apply IH. cbn in Hl. lia.
+    + cbn [strip_escnl_dq]. rewrite Hb. f_equal. apply IH. cbn in Hl. lia.
+Qed.
+Lemma strip_escnl_idem : forall s, strip_escnl_dq (strip_escnl_dq s) = strip_escnl_dq s.
+Proof. intros s. apply (strip_escnl_idem_len (length s)). apply le_n. Qed.
+
+Lemma strip_tabs_str_idem : forall s bol,
+  strip_tabs_str (fst (strip_tabs_str s bol)) bol = strip_tabs_str s bol.
+Proof.
+  induction s as [|c t IH]; intros bol; [reflexivity|].
+  cbn [strip_tabs_str].
+  destruct (bol && (c =? TAB)) eqn:E.
+  - apply andb_true_iff in E. destruct E as [-> _]. apply IH.
+  - specialize (IH (c =? NL)). destruct (strip_tabs_str t (c =? NL)) as [r e] eqn:Er.
+    cbn [fst] in *. cbn [strip_tabs_str]. rewrite E. rewrite IH. reflexivity.
+Qed.
+
+Lemma strip_tabs_str_nil : forall s bol e, strip_tabs_str s bol = ([], e) -> e = bol.
+Proof.
+  induction s as [|c t IH]; intros bol e H; cbn [strip_tabs_str] in H.
+  - inversion H. reflexivity.
+  - destruct (bol && (c =? TAB)) eqn:E.
+    + apply andb_true_iff in E. destruct E as [-> _]. apply IH in H. exact H.
+    + destruct (strip_tabs_str t (c =? NL)). discriminate.
+Qed.
+
+Lemma strip_tabs_dq_idem : forall d bol, strip_tabs_dq (strip_tabs_dq d bol) bol = strip_tabs_dq d bol.
+Proof.
+  induction d as [|s r IH|b n r IH|bq b r IH]; intros bol; cbn [strip_tabs_dq]; try reflexivity.
+  - pose proof (strip_tabs_str_idem s bol) as H.
+    destruct (strip_tabs_str s bol) as [s' e] eqn:E. cbn [fst] in H.
+    destruct s' as [|c t].
+    + apply strip_tabs_str_nil in E. subst e. apply IH.
+    + cbn [strip_tabs_dq]. rewrite H, IH. reflexivity.
+  - rewrite IH. reflexivity.
+  - rewrite IH. reflexivity.
+Qed.
+
+Lemma norm_hd_strip_comm : forall d bol, norm_hd (strip_tabs_dq d bol) = strip_tabs_dq (norm_hd d) bol.
+Proof.
+  induction d as [|s r IH|b n r IH|bq b r IH]; intros bol; cbn [strip_tabs_dq norm_hd]; try reflexivity.
+  - destruct s as [|c0 t0].
+    + cbn [strip_tabs_str]. apply IH.
+    + cbn [strip_tabs_dq]. destruct (strip_tabs_str (c0 :: t0) bol) as [s' e].
+      destruct s' as [|c t]; [apply IH|]. cbn [norm_hd]. rewrite IH. reflexivity.
+  - rewrite IH. reflexivity.
+  - rewrite IH. reflexivity.
+Qed.
+
+(* ---- norm is idempotent ---- *)
+Theorem norm_idem_all :
+  (forall w, norm_word (norm_word w) = norm_word w) /\
+  (forall p, norm_part (norm_part p) = norm_part p) /\
+  (forall d, norm_dq (norm_dq d) = norm_dq d /\ norm_hd (norm_hd d) = norm_hd d) /\
+  (forall ws, norm_words (norm_words ws) = norm_words ws) /\
+  (forall a, norm_assigns (norm_assigns a) = norm_assigns a) /\
+  (forall rs, norm_redirs (norm_redirs rs) = norm_redirs rs) /\
+  (forall c, norm_citems (norm_citems c) = norm_citems c) /\
+  (forall l, norm_stmts (norm_stmts l) = norm_stmts l) /\
+  (forall s, norm_stmt (norm_stmt s) = norm_stmt s).
+Proof.
+  apply fragment_mutind; intros;
+    repeat match goal with H : _ /\ _ |- _ => destruct H end;
+    cbn [norm_word norm_part norm_dq norm_hd norm_words norm_assigns norm_redirs norm_citems norm_stmts norm_stmt];
+    try reflexivity; try congruence; try (split; congruence).
+  - (* DLit *) split.
+    + destruct (strip_escnl_dq s) as [|c t] eqn:E; [assumption|].
+      cbn [norm_dq]. rewrite <- E, strip_escnl_idem, E. congruence.
+    + destruct s as [|c t]; [assumption|]. cbn [norm_hd]. congruence.
+  - (* RHdoc *) rewrite H0. f_equal.
+    destruct dash.
+    + rewrite norm_hd_strip_comm, H1, strip_tabs_dq_idem. reflexivity.
+    + assumption.
+Qed.
+
+Lemma norm_stmt_idem : forall s, norm_stmt (norm_stmt s) = norm_stmt s.
+Proof. apply norm_idem_all. Qed.
+
+Lemma norm_stmts_nil_iff : forall l, norm_stmts l = SNil <-> l = SNil.
+Proof. destruct l; cbn; split; congruence. Qed.
+
 Section SemProofs.
   Variable State : Type.
   Variable lookup : State -> str -> str.
-  Variable run : list str -> State -> State * str * Z.
+  Variable run : list (bool * str * str) -> list str -> State -> State * str * Z.
   Variable set_status : State -> Z -> State.
+  Variable redir_open : list (N * option str * str) -> State -> State.
+  Variable redir_close : State -> State -> str -> State * str.
+  Variable set_var : State -> str -> str -> State.
+  Variable pmatch : str -> str -> bool.
+  Variable def_func : State -> str -> stmt -> State.
+  Variable func_body : State -> str -> option stmt.
+  Variable enter_func : list (bool * str * str) -> list str -> State -> State.
+  Variable leave_func : State -> State -> State.
+  Variable call : stmt -> State -> outcome State.
 
-  Notation sw := (sem_word State lookup run set_status).
-  Notation sp := (sem_part State lookup run set_status).
-  Notation sd := (sem_dq State lookup run set_status).
-  Notation sws := (sem_words State lookup run set_status).
-  Notation sss := (sem_stmts State lookup run set_status).
-  Notation ss := (sem_stmt State lookup run set_status).
+  Notation sw := (sem_word State lookup run set_status redir_open redir_close set_var pmatch def_func func_body enter_func leave_func call).
+  Notation sp := (sem_part State lookup run set_status redir_open redir_close set_var pmatch def_func func_body enter_func leave_func call).
+  Notation sd := (sem_dq State lookup run set_status redir_open redir_close set_var pmatch def_func func_body enter_func leave_func call).
+  Notation shd := (sem_hd State lookup run set_status redir_open redir_close set_var pmatch def_func func_body enter_func leave_func call).
+  Notation sws := (sem_words State lookup run set_status redir_open redir_close set_var pmatch def_func func_body enter_func leave_func call).
+  Notation sas := (sem_assigns State lookup run set_status redir_open redir_close set_var pmatch def_func func_body enter_func leave_func call).
+  Notation srs := (sem_redirs State lookup run set_status redir_open redir_close set_var pmatch def_func func_body enter_func leave_func call).
+  Notation sci := (sem_citems State lookup run set_status redir_open redir_close set_var pmatch def_func func_body enter_func leave_func call).
+  Notation sss := (sem_stmts State lookup run set_status redir_open redir_close set_var pmatch def_func func_body enter_func leave_func call).
+  Notation ss := (sem_stmt State lookup run set_status redir_open redir_close set_var pmatch def_func func_body enter_func leave_func call).
 
   (* unfolding equations (cbn would expose the raw mutual fix) *)
   Lemma sw_cons : forall fuel p r s, sw fuel (WCons p r) s =
@@ -54,8 +159,6 @@ Section SemProofs.
     | None => None end.
   Proof. reflexivity. Qed.
   Lemma sp_dbl : forall fuel d s, sp fuel (PDbl d) s = sd fuel d s.
-  Proof. reflexivity. Qed.
-  Lemma sp_param : forall fuel b n s, sp fuel (PParam b n) s = Some (lookup s n, s).
   Proof. reflexivity. Qed.
   Lemma sp_sub : forall fuel bq b s, sp fuel (PSub bq b) s =
     match sss fuel b s with Done _ o z => Some (strip_trailing_nl o, set_status s z) | OutOfFuel => None end.
@@ -71,10 +174,45 @@ Section SemProofs.
     | Done _ o z => match sd fuel r (set_status s z) with Some (b', s2) => Some (strip_trailing_nl o ++ b', s2) | None => None end
     | OutOfFuel => None end.
   Proof. reflexivity. Qed.
+  Lemma shd_lit : forall fuel q dash bol t r s, shd fuel q dash bol (DLit t r) s =
+    let (t', e) := if dash then strip_tabs_str t bol else (t, false) in
+    match shd fuel q dash e r s with
+    | Some (b, s2) => Some ((if q then t' else unquote_hd t') ++ b, s2)
+    | None => None end.
+  Proof. reflexivity. Qed.
+  Lemma shd_param : forall fuel q dash bol br n r s, shd fuel q dash bol (DParam br n r) s =
+    match shd fuel q dash false r s with Some (b, s2) => Some (lookup s n ++ b, s2) | None => None end.
+  Proof. reflexivity. Qed.
+  Lemma shd_sub : forall fuel q dash bol bq b r s, shd fuel q dash bol (DSub bq b r) s =
+    match sss fuel b s with
+    | Done _ o z => match shd fuel q dash false r (set_status s z) with Some (b', s2) => Some (strip_trailing_nl o ++ b', s2) | None => None end
+    | OutOfFuel => None end.
+  Proof. reflexivity. Qed.
   Lemma sws_cons : forall fuel e w r s, sws fuel (WsCons e w r) s =
     match sw fuel w s with
     | Some (a, s1) => match sws fuel r s1 with Some (l, s2) => Some (a :: l, s2) | None => None end
     | None => None end.
+  Proof. reflexivity. Qed.
+  Lemma sas_cons : forall fuel ap n v r s, sas fuel (ACons ap n v r) s =
+    match sw fuel v s with
+    | Some (x, s1) => match sas fuel r s1 with Some (l, s2) => Some ((ap, n, x) :: l, s2) | None => None end
+    | None => None end.
+  Proof. reflexivity. Qed.
+  Lemma srs_file : forall fuel op fd t r s, srs fuel (RFile op fd t r) s =
+    match sw fuel t s with
+    | Some (x, s1) => match srs fuel r s1 with Some (l, s2) => Some ((op, fd, x) :: l, s2) | None => None end
+    | None => None end.
+  Proof. reflexivity. Qed.
+  Lemma srs_hdoc : forall fuel dash q delim b r s, srs fuel (RHdoc dash q delim b r) s =
+    match shd fuel q dash true b s with
+    | Some (x, s1) => match srs fuel r s1 with Some (l, s2) => Some ((HDOC_OP, None, x) :: l, s2) | None => None end
+    | None => None end.
+  Proof. reflexivity. Qed.
+  Lemma sci_cons : forall fuel ps b r v s, sci fuel (CCons ps b r) v s =
+    match sws fuel ps s with
+    | None => OutOfFuel
+    | Some (pl, s1) => if existsb (fun p => pmatch p v) pl then sss fuel b s1 else sci fuel r v s1
+    end.
   Proof. reflexivity. Qed.
   Lemma sss_cons : forall fuel line c semi st r s, sss fuel (SCons line c semi st r) s =
     match ss fuel st s with
@@ -89,10 +227,33 @@ Section SemProofs.
         end
     end.
   Proof. reflexivity. Qed.
-  Lemma ss_simple : forall fuel ws s, ss fuel (Simple ws) s =
-    match sws fuel ws s with
-    | Some (argv, s1) => let '(s2, o, z) := run argv s1 in Done s2 o z
-    | None => OutOfFuel end.
+  Lemma ss_simple : forall fuel asg ws s, ss fuel (Simple asg ws) s =
+    match sas fuel asg s with
+    | None => OutOfFuel
+    | Some (al, s0) =>
+        match sws fuel ws s0 with
+        | None => OutOfFuel
+        | Some (argv, s1) =>
+            match match argv with name :: _ => func_body s1 name | [] => None end with
+            | Some body =>
+                match call body (enter_func al argv s1) with
+                | Done s2 o z => Done (leave_func s1 s2) o z
+                | OutOfFuel => OutOfFuel
+                end
+            | None => let '(s2, o, z) := run al argv s1 in Done s2 o z
+            end
+        end
+    end.
+  Proof. reflexivity. Qed.
+  Lemma ss_redirected : forall fuel st rs s, ss fuel (Redirected st rs) s =
+    match srs fuel rs s with
+    | None => OutOfFuel
+    | Some (rl, s0) =>
+        match ss fuel st (redir_open rl s0) with
+        | Done s1 o z => let (s2, o') := redir_close s0 s1 o in Done s2 o' z
+        | OutOfFuel => OutOfFuel
+        end
+    end.
   Proof. reflexivity. Qed.
   Lemma ss_not : forall fuel st s, ss fuel (Not st) s =
     match ss fuel st s with
@@ -130,6 +291,25 @@ Section SemProofs.
   Lemma ss_while : forall fuel u c b s, ss fuel (While u c b) s =
     loop State set_status fuel u (sss fuel c) (sss fuel b) s [] 0%Z.
   Proof. reflexivity. Qed.
+  Lemma ss_for : forall fuel v items b s, ss fuel (For v items b) s =
+    match sws fuel items s with
+    | None => OutOfFuel
+    | Some (vals, s1) => for_loop State set_status set_var v vals (sss fuel b) s1 [] 0%Z
+    end.
+  Proof. reflexivity. Qed.
+  Lemma ss_case : forall fuel w items s, ss fuel (Case w items) s =
+    match sw fuel w s with
+    | None => OutOfFuel
+    | Some (v, s1) => sci fuel items v s1
+    end.
+  Proof. reflexivity. Qed.
+  Lemma ss_funcdecl : forall fuel n b s, ss fuel (FuncDecl n b) s = Done (def_func s n (norm_stmt b)) [] 0%Z.
+  Proof. reflexivity. Qed.
+
+  Lemma shd_nil : forall fuel q dash bol s, shd fuel q dash bol DNil s = Some ([], s).
+  Proof. reflexivity. Qed.
+  Lemma shd_nodash_bol : forall fuel q bol bol' d s, shd fuel q false bol d s = shd fuel q false bol' d s.
+  Proof. intros fuel q bol bol' d s. destruct d; reflexivity. Qed.
 
   Lemma loop_ext : forall n u c1 b1 c2 b2,
     (forall s, c1 s = c2 s) -> (forall s, b1 s = b2 s) ->
@@ -142,11 +322,26 @@ Section SemProofs.
     apply IH; assumption.
   Qed.
 
+  Lemma for_loop_ext : forall var vals b1 b2,
+    (forall s, b1 s = b2 s) ->
+    forall s acc last, for_loop State set_status set_var var vals b1 s acc last =
+                       for_loop State set_status set_var var vals b2 s acc last.
+  Proof.
+    induction vals as [|v rest IH]; intros b1 b2 Hb s acc last; [reflexivity|].
+    cbn [for_loop]. rewrite Hb. destruct (b2 (set_var s var v)) as [s2 o2 z2|]; [|reflexivity].
+    apply IH; assumption.
+  Qed.
+
   Theorem norm_sem_all :
     (forall w fuel s, sw fuel (norm_word w) s = sw fuel w s) /\
     (forall p fuel s, sp fuel (norm_part p) s = sp fuel p s) /\
-    (forall d fuel s, sd fuel (norm_dq d) s = sd fuel d s) /\
+    (forall d, (forall fuel s, sd fuel (norm_dq d) s = sd fuel d s) /\
+               (forall fuel q dash bol s, shd fuel q dash bol (norm_hd d) s = shd fuel q dash bol d s) /\
+               (forall fuel q bol s, shd fuel q true bol (strip_tabs_dq (norm_hd d) bol) s = shd fuel q true bol d s)) /\
     (forall ws fuel s, sws fuel (norm_words ws) s = sws fuel ws s) /\
+    (forall a fuel s, sas fuel (norm_assigns a) s = sas fuel a s) /\
+    (forall rs fuel s, srs fuel (norm_redirs rs) s = srs fuel rs s) /\
+    (forall c fuel v s, sci fuel (norm_citems c) v s = sci fuel c v s) /\
     (forall l fuel s, sss fuel (norm_stmts l) s = sss fuel l s) /\
     (forall st fuel s, ss fuel (norm_stmt st) s = ss fuel st s).
   Proof.
@@ -156,28 +351,75 @@ Section SemProofs.
       destruct (sp fuel p s) as [[a s1]|]; [|reflexivity]. rewrite Hw. reflexivity.
     - reflexivity.
     - reflexivity.
-    - (* PDbl *) intros d Hd fuel s. cbn [norm_part]. rewrite !sp_dbl. apply Hd.
+    - (* PDbl *) intros d (Hd & _ & _) fuel s. cbn [norm_part]. rewrite !sp_dbl. apply Hd.
     - (* PParam *) reflexivity.
     - (* PSub *) intros bq b Hb fuel s. cbn [norm_part]. rewrite !sp_sub. rewrite Hb. reflexivity.
-    - reflexivity.
-    - (* DLit *) intros t r Hr fuel s. cbn [norm_dq]. rewrite sd_lit.
-      rewrite <- (unquote_dq_strip t).
-      destruct (strip_escnl_dq t) as [|c t'] eqn:Est.
-      + rewrite Hr. destruct (sd fuel r s) as [[b s2]|]; reflexivity.
-      + rewrite sd_lit. rewrite Hr. reflexivity.
-    - (* DParam *) intros br n r Hr fuel s. cbn [norm_dq]. rewrite !sd_param. rewrite Hr. reflexivity.
-    - (* DSub *) intros bq b Hb r Hr fuel s. cbn [norm_dq]. rewrite !sd_sub. rewrite Hb.
-      destruct (sss fuel b s) as [s1 o z|]; [|reflexivity]. rewrite Hr. reflexivity.
-    - reflexivity.
+    - (* DNil *) repeat split; reflexivity.
+    - (* DLit *) intros t r (Hr & Hh & Hs). repeat split.
+      + intros fuel s. cbn [norm_dq]. rewrite sd_lit.
+        rewrite <- (unquote_dq_strip t).
+        destruct (strip_escnl_dq t) as [|c t'] eqn:Est.
+        * rewrite Hr. destruct (sd fuel r s) as [[b s2]|]; reflexivity.
+        * rewrite sd_lit. rewrite Hr. reflexivity.
+      + intros fuel q dash bol s. destruct t as [|c0 t0].
+        * cbn [norm_hd]. rewrite shd_lit. rewrite Hh.
+          destruct dash; cbn [strip_tabs_str].
+          -- destruct (shd fuel q true bol r s) as [[b s2]|]; destruct q; reflexivity.
+          -- rewrite (shd_nodash_bol fuel q bol false).
+             destruct (shd fuel q false false r s) as [[b s2]|]; destruct q; reflexivity.
+        * cbn [norm_hd]. rewrite !shd_lit.
+          destruct dash; [destruct (strip_tabs_str (c0 :: t0) bol) as [t' e]|]; rewrite Hh; reflexivity.
+      + intros fuel q bol s.
+        assert (G : shd fuel q true bol (strip_tabs_dq (DLit t (norm_hd r)) bol) s = shd fuel q true bol (DLit t r) s).
+        { cbn [strip_tabs_dq].
+          pose proof (strip_tabs_str_idem t bol) as Hi.
+          destruct (strip_tabs_str t bol) as [t' e] eqn:Et. cbn [fst] in Hi.
+          destruct t' as [|c1 t1].
+          - pose proof (strip_tabs_str_nil _ _ _ Et) as He. subst e.
+            rewrite shd_lit, Et. rewrite Hs.
+            destruct (shd fuel q true bol r s) as [[b s2]|]; destruct q; reflexivity.
+          - rewrite !shd_lit. rewrite Hi, Et. rewrite Hs. reflexivity. }
+        destruct t as [|c0 t0]; [|exact G].
+        cbn [norm_hd]. rewrite Hs. rewrite shd_lit. cbn [strip_tabs_str].
+        destruct (shd fuel q true bol r s) as [[b s2]|]; destruct q; reflexivity.
+    - (* DParam *) intros br n r (Hr & Hh & Hs). repeat split.
+      + intros fuel s. cbn [norm_dq]. rewrite !sd_param. rewrite Hr. reflexivity.
+      + intros fuel q dash bol s. cbn [norm_hd]. rewrite !shd_param. rewrite Hh. reflexivity.
+      + intros fuel q bol s. cbn [norm_hd strip_tabs_dq]. rewrite !shd_param. rewrite Hs. reflexivity.
+    - (* DSub *) intros bq b Hb r (Hr & Hh & Hs). repeat split.
+      + intros fuel s. cbn [norm_dq]. rewrite !sd_sub. rewrite Hb.
+        destruct (sss fuel b s) as [s1 o z|]; [|reflexivity]. rewrite Hr. reflexivity.
+      + intros fuel q dash bol s. cbn [norm_hd]. rewrite !shd_sub. rewrite Hb.
+        destruct (sss fuel b s) as [s1 o z|]; [|reflexivity]. rewrite Hh. reflexivity.
+      + intros fuel q bol s. cbn [norm_hd strip_tabs_dq]. rewrite !shd_sub. rewrite Hb.
+        destruct (sss fuel b s) as [s1 o z|]; [|reflexivity]. rewrite Hs. reflexivity.
+    - (* WsNil *) reflexivity.
     - (* WsCons *) intros e w Hw r Hr fuel s. cbn [norm_words]. rewrite !sws_cons. rewrite Hw.
       destruct (sw fuel w s) as [[a s1]|]; [|reflexivity]. rewrite Hr. reflexivity.
-    - reflexivity.
+    - (* ANil *) reflexivity.
+    - (* ACons *) intros ap n v Hv r Hr fuel s. cbn [norm_assigns]. rewrite !sas_cons. rewrite Hv.
+      destruct (sw fuel v s) as [[x s1]|]; [|reflexivity]. rewrite Hr. reflexivity.
+    - (* RNil *) reflexivity.
+    - (* RFile *) intros op fd t Ht r Hr fuel s. cbn [norm_redirs]. rewrite !srs_file. rewrite Ht.
+      destruct (sw fuel t s) as [[x s1]|]; [|reflexivity]. rewrite Hr. reflexivity.
+    - (* RHdoc *) intros dash q delim b (_ & Hh & Hs) r Hr fuel s. cbn [norm_redirs]. rewrite !srs_hdoc.
+      assert (E : shd fuel q dash true (if dash then strip_tabs_dq (norm_hd b) true else norm_hd b) s = shd fuel q dash true b s).
+      { destruct dash; [apply Hs|apply Hh]. }
+      rewrite E. destruct (shd fuel q dash true b s) as [[x s1]|]; [|reflexivity]. rewrite Hr. reflexivity.
+    - (* CNil *) reflexivity.
+    - (* CCons *) intros ps Hps b Hb r Hr fuel v s. cbn [norm_citems]. rewrite !sci_cons. rewrite Hps.
+      destruct (sws fuel ps s) as [[pl s1]|]; [|reflexivity].
+      destruct (existsb (fun p => pmatch p v) pl); [apply Hb|apply Hr].
+    - (* SNil *) reflexivity.
     - (* SCons *) intros line c semi st Hst r Hr fuel s. cbn [norm_stmts]. rewrite !sss_cons. rewrite Hst.
       destruct (ss fuel st s) as [s1 o1 z1|]; [|reflexivity].
       destruct r as [|l2 c2 semi2 st2 r2]; [reflexivity|].
       specialize (Hr fuel (set_status s1 z1)).
       cbn [norm_stmts] in *. rewrite Hr. reflexivity.
-    - (* Simple *) intros ws Hws fuel s. cbn [norm_stmt]. rewrite !ss_simple. rewrite Hws. reflexivity.
+    - (* Simple *) intros a Ha ws Hws fuel s. cbn [norm_stmt]. rewrite !ss_simple. rewrite Ha.
+      destruct (sas fuel a s) as [[al s0]|]; [|reflexivity]. rewrite Hws. reflexivity.
+    - (* Redirected *) intros st Hst rs Hrs fuel s. cbn [norm_stmt]. rewrite !ss_redirected. rewrite Hrs.
+      destruct (srs fuel rs s) as [[rl s0]|]; [|reflexivity]. rewrite Hst. reflexivity.
     - (* Not *) intros st Hst fuel s. cbn [norm_stmt]. rewrite !ss_not. rewrite Hst. reflexivity.
     - (* AndOr *) intros o a Ha b Hb fuel s. cbn [norm_stmt]. rewrite !ss_andor. rewrite Ha.
       destruct (ss fuel a s) as [s1 o1 z1|]; [|reflexivity].
@@ -192,15 +434,31 @@ Section SemProofs.
         specialize (He fuel (set_status s1 z1)). cbn [norm_stmts] in *. rewrite He. reflexivity.
     - (* While *) intros u c Hc b Hb fuel s. cbn [norm_stmt]. rewrite !ss_while.
       apply loop_ext; intros; [apply Hc|apply Hb].
-  Qed.
-
-  (* the property theorem: trees with the same normal form have the same behaviour
-     (final state, standard output, exit status), for every fuel, out-of-fuel included *)
-  Theorem norm_preserves_sem : forall t t' fuel s,
-    norm_stmts t = norm_stmts t' -> sss fuel t s = sss fuel t' s.
-  Proof.
-    intros t t' fuel s H.
-    destruct norm_sem_all as (_ & _ & _ & _ & Hs & _).
-    rewrite <- (Hs t), <- (Hs t'), H. reflexivity.
+    - (* For *) intros v items Hi b Hb fuel s. cbn [norm_stmt]. rewrite !ss_for. rewrite Hi.
+      destruct (sws fuel items s) as [[vals s1]|]; [|reflexivity].
+      apply for_loop_ext. intros; apply Hb.
+    - (* Case *) intros w Hw items Hi fuel s. cbn [norm_stmt]. rewrite !ss_case. rewrite Hw.
+      destruct (sw fuel w s) as [[v s1]|]; [|reflexivity]. apply Hi.
+    - (* FuncDecl *) intros n b Hb fuel s. cbn [norm_stmt]. rewrite !ss_funcdecl. rewrite norm_stmt_idem. reflexivity.
   Qed.
 End SemProofs.
+
+(* the property theorem: trees with the same normal form have the same behaviour (final
+   state, standard output, exit status), for every fuel, running out of fuel included *)
+Theorem norm_preserves_sem :
+  forall State lookup run set_status redir_open redir_close set_var pmatch def_func func_body enter_func leave_func
+         t t' fuel s,
+    norm_stmts t = norm_stmts t' ->
+    sem_top State lookup run set_status redir_open redir_close set_var pmatch def_func func_body enter_func leave_func fuel t s =
+    sem_top State lookup run set_status redir_open redir_close set_var pmatch def_func func_body enter_func leave_func fuel t' s.
+Proof.
+  intros State lookup run set_status redir_open redir_close set_var pmatch def_func func_body enter_func leave_func
+         t t' fuel s H.
+  unfold sem_top.
+  destruct (norm_sem_all State lookup run set_status redir_open redir_close set_var pmatch def_func func_body
+              enter_func leave_func
+              (call_fuel State lookup run set_status redir_open redir_close set_var pmatch def_func func_body
+                 enter_func leave_func fuel))
+    as (_ & _ & _ & _ & _ & _ & _ & Hs & _).
+  rewrite <- (Hs t), <- (Hs t'), H. reflexivity.
+Qed.
